@@ -379,7 +379,7 @@ def gen_rawfrom(r, cid, nops, opts):
     hint = 0 if r.chance(1, 3) else n
     if r.chance(1, 2):
         # every other `From` impl of the crate; a set of pairs can hold one key twice with different values
-        src = r.pick(["deque", "list", "heap", "hashset", "btreeset", "hashmap", "btreemap"])
+        src = r.pick(["deque", "list", "heap", "hashset", "btreeset", "hashmap", "btreemap", "slice", "mutslice", "array"])
         lines = ["case %d rawfrom hint=%d items=%s keys=u64 src=%s" % (cid, n, ",".join(items) if items else "-", src)]
     else:
         lines = ["case %d rawfrom hint=%d items=%s keys=%s" % (cid, hint, ",".join(items) if items else "-", r.pick(KEYKINDS))]
